@@ -21,30 +21,42 @@ impl Out {
     }
 }
 
+/// the enum parser on `s`; for half of the inputs (by a hash of `s`) the format value sits in a
+/// reused slot that held another format a moment ago (see slots.rs)
+pub fn enum_parse_raw(fi: usize, s: &str) -> Result<Result<Narsese, String>, String> {
+    crate::slots::with_e(fi, crate::slots::key_of(s), |f| guard(|| f.parse::<Narsese>(s).map_err(|e| e.to_string())))
+}
+
 pub fn enum_parse(fi: usize, s: &str) -> Out {
-    match guard(|| fmts::e(fi).parse::<Narsese>(s)) {
+    match enum_parse_raw(fi, s) {
         Err(p) => Out::Panic(p),
-        Ok(Err(e)) => Out::Err(e.to_string()),
+        Ok(Err(e)) => Out::Err(e),
         Ok(Ok(v)) => Out::Ok(canon_n(&v)),
     }
 }
 
 pub fn enum_parse_value(fi: usize, s: &str) -> Result<Narsese, String> {
-    match guard(|| fmts::e(fi).parse::<Narsese>(s)) {
+    match enum_parse_raw(fi, s) {
         Err(p) => Err(format!("panic: {p}")),
-        Ok(Err(e)) => Err(e.to_string()),
+        Ok(Err(e)) => Err(e),
         Ok(Ok(v)) => Ok(v),
     }
 }
 
+/// the lexical parser on `s` (same slot discipline)
+pub fn lexical_parse_raw(fi: usize, s: &str) -> Result<Result<narsese::lexical::Narsese, String>, String> {
+    crate::slots::with_l(fi, crate::slots::key_of(s), |l| guard(|| l.parse(s).map_err(|e| e.to_string())))
+}
+
 pub fn lexical_fold(fi: usize, s: &str) -> Out {
-    let r = guard(|| match fmts::l(fi).parse(s) {
-        Err(e) => Err(format!("lexical parse: {e}")),
-        Ok(x) => match x.try_fold_into(fmts::e(fi)) {
+    let r = match lexical_parse_raw(fi, s) {
+        Err(p) => Err(p),
+        Ok(Err(e)) => Ok(Err(format!("lexical parse: {e}"))),
+        Ok(Ok(x)) => guard(|| match x.try_fold_into(fmts::e(fi)) {
             Err(e) => Err(format!("fold: {e:?}")),
             Ok(v) => Ok(v),
-        },
-    });
+        }),
+    };
     match r {
         Err(p) => Out::Panic(p),
         Ok(Err(e)) => Out::Err(e),
